@@ -1,5 +1,7 @@
 import BiotiteModel.Proofs.C01RefStep
 import BiotiteModel.Gen.C01
+import BiotiteModel.Gen.C01Skel
+import BiotiteModel.Proofs.C01Expected
 /-!
 # C01 — property theorems (atom arrays and stacks stay coherent)
 
@@ -253,6 +255,159 @@ theorem C01_gen_copy_path :
     (∀ f ∈ ["_annot", "_coord", "_array_length", "_bonds"], f ∈ Gen.C01.delAtomFields) ∧
     (∀ f ∈ ["_coord", "_bonds", "_box", "_annot"], f ∈ Gen.C01.subarrayFields) ∧
     Gen.C01.mandatory = mandatory := by
+  decide
+
+
+/-! ## The source the model was written against (tie, pass 7)
+
+`Gen/C01Skel.lean` is regenerated on every run: for each anchored function of `atoms.py` / `copyable.py` its
+normalised skeleton (statement by statement: guards with their comparison operators and constants, exception
+classes, helper calls, assignment targets, default argument values, order of checks and steps; local names
+alpha-renamed, messages and docstrings dropped), and for `bonds.pyx` the code lines of the index-relabelling
+functions.  `Proofs/C01Expected.lean` is what the hand-written model encodes.  A changed operator, constant,
+default, exception class, helper or order breaks the obligation of its family for every input at once. -/
+
+theorem C01_gen_skeleton_getitem :
+    Gen.C01Skel.skel_AtomArray___getitem__ = Expected.C01Skel.skel_AtomArray___getitem__ ∧
+    Gen.C01Skel.skel_AtomArrayStack___getitem__ = Expected.C01Skel.skel_AtomArrayStack___getitem__ ∧
+    Gen.C01Skel.skel_AtomArray_get_atom = Expected.C01Skel.skel_AtomArray_get_atom ∧
+    Gen.C01Skel.skel_AtomArrayStack_get_array = Expected.C01Skel.skel_AtomArrayStack_get_array ∧
+    Gen.C01Skel.skel__AtomArrayBase__subarray = Expected.C01Skel.skel__AtomArrayBase__subarray ∧
+    Gen.C01Skel.skel_AtomArray___iter__ = Expected.C01Skel.skel_AtomArray___iter__ ∧
+    Gen.C01Skel.skel_AtomArrayStack___iter__ = Expected.C01Skel.skel_AtomArrayStack___iter__ ∧
+    Gen.C01Skel.skel_AtomArray___len__ = Expected.C01Skel.skel_AtomArray___len__ ∧
+    Gen.C01Skel.skel_AtomArrayStack___len__ = Expected.C01Skel.skel_AtomArrayStack___len__ ∧
+    Gen.C01Skel.skel__AtomArrayBase___len__ = Expected.C01Skel.skel__AtomArrayBase___len__ ∧
+    Gen.C01Skel.skel_AtomArrayStack_stack_depth = Expected.C01Skel.skel_AtomArrayStack_stack_depth ∧
+    Gen.C01Skel.skel__AtomArrayBase_array_length = Expected.C01Skel.skel__AtomArrayBase_array_length := by
+  refine ⟨rfl, rfl, rfl, rfl, rfl, rfl, rfl, rfl, rfl, rfl, rfl, rfl⟩
+
+theorem C01_gen_skeleton_setitem :
+    Gen.C01Skel.skel__AtomArrayBase__set_element = Expected.C01Skel.skel__AtomArrayBase__set_element ∧
+    Gen.C01Skel.skel_AtomArray___setitem__ = Expected.C01Skel.skel_AtomArray___setitem__ ∧
+    Gen.C01Skel.skel_AtomArrayStack___setitem__ = Expected.C01Skel.skel_AtomArrayStack___setitem__ := by
+  refine ⟨rfl, rfl, rfl⟩
+
+theorem C01_gen_skeleton_del :
+    Gen.C01Skel.skel__AtomArrayBase__del_element = Expected.C01Skel.skel__AtomArrayBase__del_element ∧
+    Gen.C01Skel.skel_AtomArray___delitem__ = Expected.C01Skel.skel_AtomArray___delitem__ ∧
+    Gen.C01Skel.skel_AtomArrayStack___delitem__ = Expected.C01Skel.skel_AtomArrayStack___delitem__ := by
+  refine ⟨rfl, rfl, rfl⟩
+
+theorem C01_gen_skeleton_annot :
+    Gen.C01Skel.skel__AtomArrayBase___init__ = Expected.C01Skel.skel__AtomArrayBase___init__ ∧
+    Gen.C01Skel.skel__AtomArrayBase_add_annotation = Expected.C01Skel.skel__AtomArrayBase_add_annotation ∧
+    Gen.C01Skel.skel__AtomArrayBase_del_annotation = Expected.C01Skel.skel__AtomArrayBase_del_annotation ∧
+    Gen.C01Skel.skel__AtomArrayBase_get_annotation = Expected.C01Skel.skel__AtomArrayBase_get_annotation ∧
+    Gen.C01Skel.skel__AtomArrayBase_set_annotation = Expected.C01Skel.skel__AtomArrayBase_set_annotation ∧
+    Gen.C01Skel.skel__AtomArrayBase_get_annotation_categories = Expected.C01Skel.skel__AtomArrayBase_get_annotation_categories ∧
+    Gen.C01Skel.skel__AtomArrayBase___getattr__ = Expected.C01Skel.skel__AtomArrayBase___getattr__ := by
+  refine ⟨rfl, rfl, rfl, rfl, rfl, rfl, rfl⟩
+
+theorem C01_gen_skeleton_setters :
+    Gen.C01Skel.skel__AtomArrayBase___setattr__ = Expected.C01Skel.skel__AtomArrayBase___setattr__ := rfl
+
+theorem C01_gen_skeleton_eq :
+    Gen.C01Skel.skel__AtomArrayBase_equal_annotations = Expected.C01Skel.skel__AtomArrayBase_equal_annotations ∧
+    Gen.C01Skel.skel__AtomArrayBase_equal_annotation_categories = Expected.C01Skel.skel__AtomArrayBase_equal_annotation_categories ∧
+    Gen.C01Skel.skel__AtomArrayBase___eq__ = Expected.C01Skel.skel__AtomArrayBase___eq__ ∧
+    Gen.C01Skel.skel_AtomArray___eq__ = Expected.C01Skel.skel_AtomArray___eq__ ∧
+    Gen.C01Skel.skel_AtomArrayStack___eq__ = Expected.C01Skel.skel_AtomArrayStack___eq__ ∧
+    Gen.C01Skel.skel_Atom___eq__ = Expected.C01Skel.skel_Atom___eq__ ∧
+    Gen.C01Skel.skel_Atom___ne__ = Expected.C01Skel.skel_Atom___ne__ := by
+  refine ⟨rfl, rfl, rfl, rfl, rfl, rfl, rfl⟩
+
+theorem C01_gen_skeleton_copy :
+    Gen.C01Skel.skel__AtomArrayBase___copy_fill__ = Expected.C01Skel.skel__AtomArrayBase___copy_fill__ ∧
+    Gen.C01Skel.skel__AtomArrayBase__copy_annotations = Expected.C01Skel.skel__AtomArrayBase__copy_annotations ∧
+    Gen.C01Skel.skel_Atom___copy_create__ = Expected.C01Skel.skel_Atom___copy_create__ ∧
+    Gen.C01Skel.skel_AtomArray___copy_create__ = Expected.C01Skel.skel_AtomArray___copy_create__ ∧
+    Gen.C01Skel.skel_AtomArrayStack___copy_create__ = Expected.C01Skel.skel_AtomArrayStack___copy_create__ ∧
+    Gen.C01Skel.skel_Copyable_copy = Expected.C01Skel.skel_Copyable_copy ∧
+    Gen.C01Skel.skel_Copyable___copy_create__ = Expected.C01Skel.skel_Copyable___copy_create__ ∧
+    Gen.C01Skel.skel_Copyable___copy_fill__ = Expected.C01Skel.skel_Copyable___copy_fill__ := by
+  refine ⟨rfl, rfl, rfl, rfl, rfl, rfl, rfl, rfl⟩
+
+theorem C01_gen_skeleton_constructors :
+    Gen.C01Skel.skel_Atom___init__ = Expected.C01Skel.skel_Atom___init__ ∧
+    Gen.C01Skel.skel_AtomArray___init__ = Expected.C01Skel.skel_AtomArray___init__ ∧
+    Gen.C01Skel.skel_AtomArrayStack___init__ = Expected.C01Skel.skel_AtomArrayStack___init__ ∧
+    Gen.C01Skel.skel_array = Expected.C01Skel.skel_array ∧
+    Gen.C01Skel.skel_from_template = Expected.C01Skel.skel_from_template ∧
+    Gen.C01Skel.skel_coord = Expected.C01Skel.skel_coord := by
+  refine ⟨rfl, rfl, rfl, rfl, rfl, rfl⟩
+
+theorem C01_gen_skeleton_concat_stack_repeat :
+    Gen.C01Skel.skel_concatenate = Expected.C01Skel.skel_concatenate ∧
+    Gen.C01Skel.skel__AtomArrayBase___add__ = Expected.C01Skel.skel__AtomArrayBase___add__ ∧
+    Gen.C01Skel.skel_stack = Expected.C01Skel.skel_stack ∧
+    Gen.C01Skel.skel_repeat = Expected.C01Skel.skel_repeat := by
+  refine ⟨rfl, rfl, rfl, rfl⟩
+
+theorem C01_gen_skeleton_bonds :
+    Gen.C01Skel.skel_bonds_pyx___getitem__ = Expected.C01Skel.skel_bonds_pyx___getitem__ ∧
+    Gen.C01Skel.skel_bonds_pyx_concatenate = Expected.C01Skel.skel_bonds_pyx_concatenate ∧
+    Gen.C01Skel.skel_bonds_pyx___copy_create__ = Expected.C01Skel.skel_bonds_pyx___copy_create__ ∧
+    Gen.C01Skel.skel_bonds_pyx___copy_fill__ = Expected.C01Skel.skel_bonds_pyx___copy_fill__ ∧
+    Gen.C01Skel.skel_bonds_pyx___eq__ = Expected.C01Skel.skel_bonds_pyx___eq__ ∧
+    Gen.C01Skel.skel_bonds_pyx__invert_index = Expected.C01Skel.skel_bonds_pyx__invert_index ∧
+    Gen.C01Skel.skel_bonds_pyx__to_positive_index_array = Expected.C01Skel.skel_bonds_pyx__to_positive_index_array ∧
+    Gen.C01Skel.skel_bonds_pyx__to_index_array = Expected.C01Skel.skel_bonds_pyx__to_index_array ∧
+    Gen.C01Skel.skel_bonds_pyx_BondList_decorators = Expected.C01Skel.skel_bonds_pyx_BondList_decorators := by
+  refine ⟨rfl, rfl, rfl, rfl, rfl, rfl, rfl, rfl, rfl⟩
+
+/-- The exception classes the anchored functions raise, in source order, are the ones the model returns
+(`Err.toString` of the model's error values). -/
+theorem C01_gen_error_classes :
+    Gen.C01Skel.raises =
+      [("_AtomArrayBase.add_annotation", [Err.valueError.toString]),
+       ("_AtomArrayBase.get_annotation", [Err.valueError.toString]),
+       ("_AtomArrayBase.set_annotation", [Err.indexError.toString]),                       -- `setAnnotation`
+       ("_AtomArrayBase._set_element", [Err.typeError.toString, Err.keyError.toString]),   -- `setElement`
+       ("_AtomArrayBase._del_element", [Err.typeError.toString]),                          -- `delitem`
+       ("_AtomArrayBase.__getattr__", ["AttributeError"]),
+       ("_AtomArrayBase.__setattr__",                                                      -- `setCoord` / `setBox` / `setBonds`
+         [Err.typeError.toString, Err.valueError.toString, Err.valueError.toString, Err.valueError.toString,
+          Err.typeError.toString, Err.valueError.toString,
+          Err.valueError.toString, Err.typeError.toString,
+          Err.valueError.toString, Err.valueError.toString, Err.typeError.toString, Err.valueError.toString,
+          Err.typeError.toString]),
+       ("Atom.__init__", [Err.valueError.toString]),
+       ("AtomArray.__getitem__", [Err.indexError.toString]),                               -- `getitem2` on an array
+       ("AtomArrayStack.__getitem__", [Err.indexError.toString, Err.indexError.toString]), -- tuple length, atom bounds
+       ("AtomArrayStack.__setitem__",                                                      -- `setModel`
+         [Err.valueError.toString, Err.valueError.toString, Err.valueError.toString, Err.typeError.toString]),
+       ("AtomArrayStack.__delitem__", [Err.typeError.toString]),
+       ("array", [Err.valueError.toString]),                                               -- `arrayOf`
+       ("stack", [Err.valueError.toString]),                                               -- `stackArrays`
+       ("concatenate", [Err.typeError.toString, Err.indexError.toString]),                 -- `concatCheck`
+       ("repeat", [Err.valueError.toString, Err.valueError.toString, Err.valueError.toString, Err.valueError.toString,
+                   Err.typeError.toString]),
+       ("from_template", [Err.valueError.toString]),                                       -- `fromTemplate`
+       ("bonds.pyx:_invert_index", [Err.notImplemented.toString]),                         -- `bondsIndexErr`
+       ("bonds.pyx:_to_positive_index_array", [Err.indexError.toString, Err.indexError.toString])] := by
+  decide
+
+/-- The mandatory categories are created with the dtypes whose kind the model's `kindOf` (and the harness) assumes. -/
+theorem C01_gen_mandatory_kinds :
+    Gen.C01.mandatoryDtypes.map (fun p => (p.1, match p.2.toList with
+                                                 | 'U' :: _ => "U" | ['i', 'n', 't'] => "i" | ['b', 'o', 'o', 'l'] => "b"
+                                                 | _ => p.2)) =
+      mandatory.map (fun k => (k, kindOf k)) := by
+  decide
+
+/-- Default argument values the model and the adapter rely on: `equal_annotations(item, equal_nan=True)` (a NaN
+token equals itself in `equalAnnot`), `from_template(template, coord, box=None)`, constructor argument order
+`AtomArrayStack(depth, length)`, `repeat(atoms, coord)`, `Atom(coord, **kwargs)`. -/
+theorem C01_gen_defaults :
+    Gen.C01Skel.skel__AtomArrayBase_equal_annotations.head? = some "def(self, v1, v2=True)" ∧
+    Gen.C01Skel.skel_from_template.head? = some "def(v1, v2, v3=None)" ∧
+    Gen.C01Skel.skel_AtomArrayStack___init__.head? = some "def(self, v1, v2)" ∧
+    Gen.C01Skel.skel_AtomArrayStack___init__.getD 1 "" = "  super().__init__(v2)" ∧
+    Gen.C01Skel.skel_repeat.head? = some "def(v1, v2)" ∧
+    Gen.C01Skel.skel_Atom___init__.head? = some "def(self, v1, **v2)" ∧
+    Gen.C01Skel.skel__AtomArrayBase_add_annotation.head? = some "def(self, v1, v2)" ∧
+    Gen.C01Skel.skel__AtomArrayBase_set_annotation.head? = some "def(self, v1, v2)" := by
   decide
 
 /-! ## Non-vacuity -/
